@@ -69,6 +69,125 @@ def r3(ctx, rule="C02.R3"):
             ctx.ok(rule, "11.8#length-sign-sensitive", detail)
 
 
+def r4(ctx):
+    from ..mir import span_loc
+    rule = "C02.R4"
+    ctx.rule(rule, "T6 model provenance (ASN model -> Rust model, from which every constraint constant is printed): in "
+                   "definition_to_rust the extension position of a Struct / Enumeration comes from the extension position of the "
+                   "ASN.1 type being converted, its tag from the tag handed in, and its fields from the fields of that same type")
+    P = ctx.program()
+    bs = [b for b in P.find("asn1rs_model", "::definition_to_rust") if b.def_kind == "AssocFn"]
+    if len(bs) != 1:
+        ctx.fail(rule, "anchor-lost:definition_to_rust", "matched %d bodies" % len(bs))
+        return
+    b = bs[0]
+    O = X.Origins(b, P)
+    pn = b.param_names()
+    tag_param = [i for i, n in pn.items() if n == "tag"]
+    n = 0
+    for bb, j, st in b.all_statements():
+        if not (st["k"] == "assign" and st["rv"]["k"] == "agg" and st["rv"].get("ak") == "adt"):
+            continue
+        adt = st["rv"]["adt"].split("::")[-1]
+        if adt not in ("Rust", "Enumeration") or not st["rv"].get("fields") or st["rv"]["fields"] == ["0"]:
+            continue
+        fields = {nm: F.rd(R.positional(O.operand(o, bb, j))) for nm, o in zip(st["rv"]["fields"], st["rv"]["ops"])}
+        src = None
+        for v in fields.values():
+            import re as _re
+            m = _re.search(r"\(\$\d+ as (\w+)\)", v)
+            if m:
+                src = m.group(1)
+        key = "%s::%s<-%s" % (adt, st["rv"]["variant"], src)
+        n += 1
+        probs = []
+        for nm, v in fields.items():
+            if nm == "tag" and tag_param and v != "$%d" % tag_param[0]:
+                probs.append("tag is taken from `%s`, not from the tag handed in" % v[:60])
+            if nm in ("extension_after", "extended_after_index"):
+                if src is None or ("as %s)" % src) not in v or "extension_after" not in v:
+                    probs.append("%s is `%s`, not the extension position of the converted type" % (nm, v[:60]))
+            if nm == "fields" and (src is None or ("as %s).0.fields" % src) not in v):
+                probs.append("fields are built from `%s`" % v[:60])
+        detail = {"built": key, "fields": {k: v[:120] for k, v in fields.items()}}
+        if probs:
+            ctx.fail(rule, key, "; ".join(probs) + ": EXTENDED_AFTER_FIELD / STD_VARIANT_COUNT / TAG are then printed for a different type "
+                                                   "than the one that was parsed", span_loc(st["sp"]), detail)
+        else:
+            ctx.ok(rule, key, detail)
+    ctx.floor(rule, n, "C02.R4.aggregates")
+
+
+MODEL_TYPES = ("Range", "Size", "Integer", "BitString", "ComponentTypeList", "Enumerated", "Choice")
+
+
+def returned_values(P, body, depth=1):
+    """origin expressions of the values a function can return; a call of a local function is replaced by that function's
+    returned values with the arguments substituted (one level)"""
+    O = X.Origins(body, P)
+    out = []
+    for d in body.defs.get(0, ()):
+        if d[2] == "assign":
+            out.append(O.rvalue(d[3], d[0], d[1], 0))
+        elif d[2] == "call":
+            cs = d[3]
+            t = P.resolve_callee(body.crate, cs) if depth > 0 else None
+            if t is None:
+                continue
+            sub = {}
+            pn = t.param_names()
+            for i, a in enumerate(O.call_args(cs)):
+                if pn.get(i + 1):
+                    sub[pn[i + 1]] = a
+            for e in returned_values(P, t, depth - 1):
+                out.append(R.substitute(e, sub))
+    return out
+
+
+def r5(ctx, rule="C02.R5"):
+    ctx.rule(rule, "T6 rebuilders keep the marker: a method of the ASN model that takes a Range / Size / ... by `self` and returns a "
+                   "value of the same type (wrap_opt, reconsider_constraints, with_*; constructors it calls are followed one level) "
+                   "never fills a bool field of the rebuilt value with a constant - the extension marker printed as EXTENSIBLE comes "
+                   "from the value that was parsed")
+    P = ctx.program()
+    n = 0
+    for b in P.lib_bodies("asn1rs_model"):
+        if b.def_kind != "AssocFn" or b.derived or "::tests::" in b.path:
+            continue
+        base = (b.impl_self_ty or "").split("<")[0].split("::")[-1]
+        pn = b.param_names()
+        locs = b.raw.get("locals") or [{}]
+        ret = locs[0].get("ty", "") if locs else ""
+        if base not in MODEL_TYPES or pn.get(1) != "self" or ("::%s<" % base not in ret + "<" and not ret.endswith("::" + base)):
+            continue
+        if b.name == "try_resolve":
+            continue        # field provenance of the resolvers is C07.R1
+        adt = None
+        for k, a in P.adts.items():
+            if k.startswith("asn1rs_model::") and k.endswith("::" + base):
+                adt = a
+        bools = {}
+        if adt:
+            for v in adt["variants"]:
+                bools[v["name"]] = [f["name"] for f in v["fields"] if f["ty"] == "bool"]
+        vals = returned_values(P, b)
+        for e in vals:
+            for x in X.walk(e):
+                if x[0] == "agg" and x[1] == "adt" and x[2].endswith("::" + base):
+                    n += 1
+                    flds = dict(x[4])
+                    key = "%s::%s#%s" % (base, b.name, x[3])
+                    bad = [(f, flds[f]) for f in bools.get(x[3], []) if f in flds and F.strip_casts(flds[f])[0] == "const"]
+                    detail = {"function": b.path, "rebuilt": "%s::%s" % (base, x[3]), "fields": {k: F.rd(R.positional(v))[:100] for k, v in flds.items()}}
+                    if bad:
+                        ctx.fail(rule, key, "%s::%s rebuilds the value with the constant `%s` in its bool field `%s`: the extension marker of "
+                                            "the source is lost (EXTENSIBLE is then printed as false for an extensible constraint)"
+                                 % (base, b.name, F.rd(bad[0][1]), bad[0][0]), "%s:%d" % (b.file, b.line), detail)
+                    else:
+                        ctx.ok(rule, key, detail)
+    ctx.floor(rule, n, "C02.R5.rebuilds")
+
+
 def run(ctx):
     ctx.rule("C02.R1", "T3-b standards table: every X.691 threshold / constant of tables/x691.json is present, exactly, "
                        "in the writer and in the reader function it is anchored in")
@@ -78,3 +197,5 @@ def run(ctx):
     n = R.check_table(ctx, "C02.R1", "C02.R2", table)
     ctx.floor("C02.R1", n, "C02.R1.entries")
     r3(ctx)
+    r4(ctx)
+    r5(ctx)
